@@ -282,7 +282,8 @@ impl InfixOpManager {
             return (-1, -1);
         }
         let config = ans.unwrap();
-        let l_bp = config.0;
+        // even left powers, odd right powers: operators at adjacent precedences never tie
+        let l_bp = config.0 * 2;
         let mut r_bp = 0;
         if config.2 == InfixOpAssociativity::LEFT {
             r_bp = l_bp + 1;
